@@ -52,16 +52,63 @@ def do_import(src):
     print("imported %d seeded changes" % n)
 
 
+BASE_COMMIT = "2734472"       # the tree every change under seeded/ and benign/ was written against
+
+
 def scratch_with_patch(patch):
+    """Scratch copy of /repo's working tree with the change applied.  A change written against BASE_COMMIT whose
+    patch no longer applies (a later repair touched the same file) is carried over by a three-way merge per file
+    (current <- base -> base+patch); if that conflicts, `rebased.diff` next to the patch (a hand-made port of the
+    same change onto the current tree) is used, or - when a file `REBASE-THEIRS` sits next to it, for wholesale
+    rewrites - the patched base version of the file replaces the current one."""
     tmp = tempfile.mkdtemp(prefix="plotink-seed-")
     for sub in ("plotink", "test"):
         shutil.copytree(os.path.join("/repo", sub), os.path.join(tmp, sub))
     sh(["git", "init", "-q"], cwd=tmp)
     res = sh(["git", "apply", "--whitespace=nowarn", patch], cwd=tmp)
-    if res.returncode != 0:
+    if res.returncode == 0:
+        return tmp
+    here = os.path.dirname(patch)
+    rebased = os.path.join(here, "rebased.diff")
+    if os.path.exists(rebased):
+        res2 = sh(["git", "apply", "--whitespace=nowarn", rebased], cwd=tmp)
+        if res2.returncode == 0:
+            return tmp
         shutil.rmtree(tmp, ignore_errors=True)
-        raise RuntimeError("patch does not apply: %s" % res.stderr)
-    return tmp
+        raise RuntimeError("rebased.diff does not apply: %s" % res2.stderr)
+    base_dir = tempfile.mkdtemp(prefix="plotink-base-")
+    try:
+        files = sorted({line[6:].strip() for line in open(patch, encoding="utf-8", errors="replace")
+                        if line.startswith("+++ b/")})
+        for rel in files:
+            shown = sh(["git", "-C", "/repo", "show", "%s:%s" % (BASE_COMMIT, rel)])
+            os.makedirs(os.path.dirname(os.path.join(base_dir, "a", rel)), exist_ok=True)
+            os.makedirs(os.path.dirname(os.path.join(base_dir, "b", rel)), exist_ok=True)
+            for side in ("a", "b"):
+                with open(os.path.join(base_dir, side, rel), "w", encoding="utf-8") as fh:
+                    fh.write(shown.stdout if shown.returncode == 0 else "")
+        sh(["git", "init", "-q"], cwd=os.path.join(base_dir, "b"))
+        res3 = sh(["git", "apply", "--whitespace=nowarn", patch], cwd=os.path.join(base_dir, "b"))
+        if res3.returncode != 0:
+            raise RuntimeError("patch does not apply to %s either: %s" % (BASE_COMMIT, res3.stderr))
+        theirs = os.path.exists(os.path.join(here, "REBASE-THEIRS"))
+        for rel in files:
+            cur = os.path.join(tmp, rel)
+            if theirs or not os.path.exists(cur):
+                os.makedirs(os.path.dirname(cur), exist_ok=True)
+                shutil.copy(os.path.join(base_dir, "b", rel), cur)
+                continue
+            merged = sh(["git", "merge-file", "-q", cur, os.path.join(base_dir, "a", rel),
+                         os.path.join(base_dir, "b", rel)])
+            if merged.returncode != 0:
+                raise RuntimeError("three-way merge of %s onto the current tree conflicts (%d hunks); add a "
+                                   "rebased.diff" % (rel, merged.returncode))
+        return tmp
+    except RuntimeError:
+        shutil.rmtree(tmp, ignore_errors=True)
+        raise
+    finally:
+        shutil.rmtree(base_dir, ignore_errors=True)
 
 
 def harvest(name, pid, replay_rel, tmp):
